@@ -1,23 +1,45 @@
 (* C17 — Embedded file transfers are reassembled bit-exactly or not at all.
    Statements only; proofs are in FileTransfer/FtProofs.v, the model (FileTransferPlugin of
-   /repo/src/plugins/file_transfer.rs) is FileTransfer/Ft.v.
+   /repo/src/plugins/file_transfer.rs, after the two `fix:` commits listed in known_findings.d/C17.json)
+   is FileTransfer/Ft.v.
 
    Vocabulary: [run c (init_st fs) ms] processes the messages [ms] with configuration [c] starting with
-   the files [fs]; [ops_for c k ms] are the (package number, payload) pairs of the FLDA messages of [ms]
-   for the transfer key k = (ecu, lifecycle, serial), in log order; [flst_of c m = Some (k, f)] says that m
-   is an announcement for k with the values f; [saved_bytes s i] are the bytes the save command writes for
-   transfer number i; [s_fs s] is the file system (path -> content). *)
+   the files [fs] (Ok = no panic); [ops_for c k ms] are the (package number, payload) pairs of the FLDA
+   messages of [ms] for the transfer key k = (ecu, lifecycle, serial), in log order; [flst_of c m = Some (k, f)]
+   says that m is an announcement for k with the values f; [msg_key c m] is the key a transfer message
+   addresses; [saved_bytes s i] are the bytes the save command writes for transfer number i; [s_fs s] is the
+   file system (path -> content); [s_pub s] the published tree items. *)
 From Coq Require Import List NArith Bool.
 From AdltV Require Import Base.Res Base.MachInt FileTransfer.Ft FileTransfer.FtProofs Exec.C17.
 Import ListNotations.
 Open Scope N_scope.
 
-(* Whatever the package sequence (drops, swaps, resized packages, duplicates, other transfers, lost
+(* (1) All packages in order => complete and bit-exact.  [pre] is anything (even an older transfer with the
+   same key), [mflst] the announcement, [post] the rest of the log: relative to the key it consists of
+   messages that do not address the key (other transfers with distinct keys, unrelated messages),
+   duplicates of packages that were already sent, and the packages [chunks] numbered 1, 2, .. in this
+   order; after the last package anything may follow (the end marker, more duplicates, a new announcement).
+   Then, if processing does not panic (see C17_no_panic), the transfer is Complete, is reported as Complete,
+   has the announced name, the file's size, and the save command delivers exactly the file. *)
+Theorem C17_inorder_complete_exact : forall c fs pre mflst post k f chunks s rets,
+  flst_of c mflst = Some (k, f) ->
+  chunks <> [] -> N.of_nat (length chunks) = f_nr f -> chunks_ok (f_bs f) (f_nr f) 1 chunks ->
+  (f_size f = 0 \/ f_size f = lenN (concat chunks)) ->
+  InOrder c k 1 chunks post ->
+  run c (init_st fs) (pre ++ mflst :: post) = Ok (s, rets) ->
+  exists i t, nth_error (s_transfers s) i = Some t /\ t_key t = k /\ t_state t = Complete /\ t_name t = f_name f /\
+              t_size t = lenN (concat chunks) /\
+              (c_allow_save c = true -> concat chunks <> [] -> saved_bytes s i = Some (concat chunks)) /\
+              nth_error (map (fun t => (t_key t, t_state t)) (s_pub s)) i = Some (k, Complete).
+Proof. exact inorder_complete_exact. Qed.
+
+(* (2) Whatever the package sequence (drops, swaps, resized packages, duplicates, other transfers, lost
    announcement): a transfer that is Complete holds exactly the packages numbered 1, 2, .., n, taken in
    this order from the log (a sub-sequence of the key's FLDA messages: nothing invented, nothing
    reordered); for an announced transfer n is the announced number of packages, every package has the
    announced size (the last may be shorter) and the total is the announced file size (if one was
-   announced); the bytes handed to the save command and the auto-saved file are their concatenation. *)
+   announced); the bytes handed to the save command and the auto-saved file are their concatenation.
+   Hence no drop / swap / resize of a package yields a damaged file that is reported complete. *)
 Theorem C17_complete_implies_exact : forall c fs ms s rets i t,
   run c (init_st fs) ms = Ok (s, rets) ->
   nth_error (s_transfers s) i = Some t -> t_state t = Complete ->
@@ -46,6 +68,95 @@ Theorem C17_published_states_current : forall c fs ms s rets,
   map (fun t => (t_key t, t_state t)) (s_pub s) = map (fun t => (t_key t, t_state t)) (s_transfers s).
 Proof. exact published_states_current. Qed.
 
+(* (3) automatic saving never writes outside the configured directory: every file that exists after the run
+   existed before or is  dir / <one normal component>  (not empty, no separator, neither "." nor "..") *)
+Theorem C17_autosave_confined : forall c fs ms s rets p,
+  run c (init_st fs) ms = Ok (s, rets) -> path_exists (s_fs s) p = true ->
+  path_exists fs p = true \/
+  exists base, single_normal base /\
+    ((save_dir c = [] /\ p = base) \/
+     (last (save_dir c) 0 = SLASH /\ p = save_dir c ++ base) \/
+     p = save_dir c ++ SLASH :: base).
+Proof.
+  intros c fs ms s rets p H Hp. destruct (autosave_confined c fs ms s rets p H Hp) as [Ho|[base [Hb ->]]]; [left; exact Ho|].
+  right. exists base. split; [exact Hb|].
+  destruct (path_join_single (save_dir c) base Hb) as [[E1 E2]|[[_ [E1 E2]]|[_ [_ E2]]]].
+  - left. split; [exact E2|exact E1].
+  - right. left. split; [exact E1|exact E2].
+  - right. right. exact E2.
+Qed.
+
+(* (4) automatic saving never overwrites: every file that existed keeps its content *)
+Theorem C17_autosave_no_overwrite : forall c fs ms s rets p d,
+  run c (init_st fs) ms = Ok (s, rets) -> lookup_path p fs = Some d -> lookup_path p (s_fs s) = Some d.
+Proof. exact autosave_no_overwrite. Qed.
+
+(* (5) no panic in the modelled arithmetic / indexing / unwrap for any log of fewer than 2^32 - 1 messages
+   whose arguments respect DLT's 16 bit length field (generation counter u32, package counters u64,
+   payload sum usize, `next_package - 1`, `transfers.get_mut(idx).unwrap()`, Vec::with_capacity) *)
+Theorem C17_no_panic : forall c fs ms,
+  N.of_nat (length ms) + 1 <= u32max -> Forall wf_msg ms -> exists s rets, run c (init_st fs) ms = Ok (s, rets).
+Proof. exact no_panic. Qed.
+
+(* ... and the buffer requested from the announced sizes is bounded, whatever was announced *)
+Theorem C17_prealloc_bounded : forall c fs ms s rets t,
+  run c (init_st fs) ms = Ok (s, rets) -> In t (s_transfers s) -> t_cap t <= MAX_PREALLOC.
+Proof. exact prealloc_bounded. Qed.
+
+(* process_msg drops (returns false for) FLDA messages only, and only when keepFLDA is off (used by C19) *)
+Theorem C17_drops_only_flda : forall c s m s',
+  step c s m = Ok (s', false) -> classify c m = KFlda /\ c_keep_flda c = false.
+Proof. exact drops_only_flda. Qed.
+
+(* The defect repaired by the first `fix:` commit, on the model of the code before the repair
+   ([add_flda_gen false]): announcement of 3 packages of 2 bytes, packages 1,2,2,3 -> Incomplete;
+   the code as it is now ([add_flda_gen true] = add_flda) completes with the exact bytes. *)
+Fixpoint feed (dupfix : bool) (t : transfer) (ops : list (N * list N)) : res transfer :=
+  match ops with
+  | [] => Ok t
+  | (pnr, raw) :: r => match add_flda_gen dupfix t pnr raw with Ok (t', _) => feed dupfix t' r | Panic s => Panic s | OutOfFuel => OutOfFuel end
+  end.
+Theorem C17_duplicate_defect_before_fix :
+  let t0 := mkT (1, 0, 17) [] 3 Started 6 2 1 0 0 6 [] None in
+  let ops := [(1, [1; 2]); (2, [3; 4]); (2, [3; 4]); (3, [5; 6])] in
+  (exists t, feed false t0 ops = Ok t /\ t_state t = Incomplete) /\
+  (exists t, feed true t0 ops = Ok t /\ t_state t = Complete /\ t_data t = [1; 2; 3; 4; 5; 6]).
+Proof. cbv zeta. split; eexists; (split; [vm_compute; reflexivity|]); vm_compute; auto. Qed.
+
+(* non-vacuity of (1): a concrete log (an announcement of 2 packages of 2 bytes; package 1, a message of
+   another transfer, a duplicate of package 1, package 2, the end marker) meets every hypothesis *)
+Example C17_nonvacuous :
+  let c := mkCfg true true false None None None None in
+  let ext n := Some (1, 2, 65, n) in
+  let mflst := expand_msg (7, 0, ext 8, BFlst false 2 17 [97] 4 2 2) in
+  let p1 := expand_msg (7, 0, ext 5, BFlda false 2 6 17 1 TI_RAWD [1; 2]) in
+  let other := expand_msg (8, 0, ext 5, BFlda false 2 6 17 1 TI_RAWD [9]) in
+  let p2 := expand_msg (7, 0, ext 5, BFlda false 2 6 17 2 TI_RAWD [3; 4]) in
+  let fin := expand_msg (7, 0, ext 3, BFlfi false 2 17) in
+  let post := [p1; other; p1; p2; fin] in
+  exists f s rets,
+    flst_of c mflst = Some ((7, 0, 17), f) /\ N.of_nat (length [[1; 2]; [3; 4]]) = f_nr f /\
+    chunks_ok (f_bs f) (f_nr f) 1 [[1; 2]; [3; 4]] /\ f_size f = lenN (concat [[1; 2]; [3; 4]]) /\
+    InOrder c (7, 0, 17) 1 [[1; 2]; [3; 4]] post /\
+    run c (init_st []) ([other] ++ mflst :: post) = Ok (s, rets) /\
+    saved_bytes s 1 = Some [1; 2; 3; 4].
+Proof.
+  cbv zeta. eexists. eexists. eexists.
+  split; [vm_compute; reflexivity|]. split; [vm_compute; reflexivity|]. split; [vm_compute; auto|].
+  split; [vm_compute; reflexivity|]. split.
+  - eapply io_pkg; [vm_compute; reflexivity|]. eapply io_other; [vm_compute; discriminate|].
+    eapply io_dup; [vm_compute; reflexivity|reflexivity|reflexivity|]. eapply io_pkg; [vm_compute; reflexivity|]. apply io_done.
+  - split; [vm_compute; reflexivity|]. vm_compute. reflexivity.
+Qed.
+
+Print Assumptions C17_inorder_complete_exact.
 Print Assumptions C17_complete_implies_exact.
 Print Assumptions C17_saved_only_complete.
 Print Assumptions C17_published_states_current.
+Print Assumptions C17_autosave_confined.
+Print Assumptions C17_autosave_no_overwrite.
+Print Assumptions C17_no_panic.
+Print Assumptions C17_prealloc_bounded.
+Print Assumptions C17_drops_only_flda.
+Print Assumptions C17_duplicate_defect_before_fix.
+Print Assumptions C17_nonvacuous.
